@@ -129,10 +129,16 @@ where
     }
 
     fn track_field(&self) {
-        let inner = self
-            .inner
-            .get_trigger(self.inner.path().into_iter().collect());
-        inner.this.track();
+        // `this` of every ancestor, not only of the direct parent
+        let mut full_path = self.path().into_iter().collect::<StorePath>();
+        loop {
+            let inner = self.get_trigger(full_path.clone());
+            inner.this.track();
+            if full_path.is_empty() {
+                break;
+            }
+            full_path.pop();
+        }
         let trigger = self.get_trigger(self.path().into_iter().collect());
         trigger.this.track();
         trigger.children.track();
